@@ -27,3 +27,11 @@ claim("C08",
   "Bounded symbolic model checking, step-inductive over an arbitrary router state (P=3): a GRAFT received during backoff is refused with a PRUNE, not admitted, penalised (doubly inside the graft-flood threshold), extends the backoff and the PRUNE to a v1.1+ peer states the backoff; clock and expiry symbolic so every boundary (now == expiry) is inside.",
   "Refusal/penalty clause so far; the no-early-GRAFT clause over Join/heartbeat/retry sites is covered indirectly by C07's 'never grafts a backed-off peer' assertions and is being added here explicitly.",
   "DESIGN.md §4 C08")
+claim("C10",
+  "Bounded symbolic model checking of the real peerScore.score / ipColocationFactor on an ARBITRARY peerStats state (one scored topic, one IP shared by 0..4 peers) with symbolic TopicScoreParams/PeerScoreParams assumed accepted by the REAL validate() functions (atomic and non-atomic mode): no panic for any accepted parameter set; the result equals the GossipSub v1.1 formula transcribed from the spec (topic half and global half compared separately, IEEE-754 semantics, first with FP operations abstracted to uninterpreted functions, exact on cvc5 otherwise); never NaN for magnitudes <= 1e12; penalty components never raise and P2 never lowers the score.",
+  "Event handlers (graft/prune/deliver/reject/decay/retention) are not yet compared with reference transitions; magnitudes bounded by 1e12; signed zeros identified; counters assumed non-negative numbers; whitelist empty; one topic.",
+  "DESIGN.md §4 C10")
+claim("C11",
+  "Bounded symbolic model checking of the real RPC.split (range-over-func) and the generated pb Size(): RPCs of two shapes (2 published messages with symbolic payload lengths <= 300 + 1 subscription; 1 subscription + 1 GRAFT + 2 IWANT IDs + 1 IDONTWANT ID) against every limit in a symbolic range: every element appears in exactly one fragment, no empty fragment, every fragment fits the limit unless it carries a single indivisible element.",
+  "Small shapes (element counts above are the bound); payload bytes are opaque (only lengths matter to Size/split); sendRPC/doDropRPC re-queuing is not yet covered; PRUNE/IHAVE/extension shapes are in the thorough tier only when they run within budget.",
+  "DESIGN.md §4 C11")
